@@ -1208,8 +1208,13 @@ impl hb_buffer_t {
             return false;
         }
 
-        self.info.resize(size, hb_glyph_info_t::default());
-        self.pos.resize(size, GlyphPosition::default());
+        // Only ever grow: the out-buffer may live in `pos` beyond `len`.
+        if size > self.info.len() {
+            self.info.resize(size, hb_glyph_info_t::default());
+        }
+        if size > self.pos.len() {
+            self.pos.resize(size, GlyphPosition::default());
+        }
         true
     }
 
